@@ -30,6 +30,28 @@ type xy struct {
 
 func mkxy(x, y *big.Int) xy { return xy{x.Text(16), y.Text(16)} }
 
+// hands its bytes out n per Read, then io.EOF
+type chunkReader struct {
+	b []byte
+	n int
+}
+
+func (r *chunkReader) Read(p []byte) (int, error) {
+	if len(r.b) == 0 {
+		return 0, io.EOF
+	}
+	k := r.n
+	if k > len(p) {
+		k = len(p)
+	}
+	if k > len(r.b) {
+		k = len(r.b)
+	}
+	copy(p, r.b[:k])
+	r.b = r.b[k:]
+	return k, nil
+}
+
 type shortReader struct {
 	b []byte
 }
@@ -171,6 +193,14 @@ func c03table(args []string) error {
 			case "genkey":
 				rb := bytesOf("reader")
 				k, err := sm2.GenerateKey(bytes.NewReader(rb))
+				// the same bytes handed out 1 / 7 / 33 per Read (an io.Reader may return short reads): the same key
+				for _, chunk := range []int{1, 7, 33} {
+					k2, err2 := sm2.GenerateKey(&chunkReader{b: rb, n: chunk})
+					if (err == nil) != (err2 == nil) || err == nil && k.D.Cmp(k2.D) != 0 {
+						err = fmt.Errorf("the key depends on how the reader cuts its stream (%d bytes per Read): %v", chunk, err2)
+						break
+					}
+				}
 				if err != nil {
 					got["err"] = err.Error()
 				} else {
@@ -180,7 +210,9 @@ func c03table(args []string) error {
 				}
 				// a reader that runs dry must give an error, not a key
 				_, err2 := sm2.GenerateKey(&shortReader{b: rb[:17]})
-				got["short_err"] = err2 != nil
+				_, err3 := sm2.GenerateKey(&shortReader{b: rb[:39]}) // one byte short of what key generation consumes
+				_, err4 := sm2.GenerateKey(&chunkReader{b: rb[:32], n: 5})
+				got["short_err"] = err2 != nil && err3 != nil && err4 != nil
 			case "params":
 				p := c.Params()
 				got["params"] = map[string]interface{}{"p": p.P.Text(16), "n": p.N.Text(16), "b": p.B.Text(16), "gx": p.Gx.Text(16), "gy": p.Gy.Text(16), "bits": p.BitSize}
